@@ -300,7 +300,7 @@ func (in *Interp) stmt(s gen.Stmt, env *Env) (ctl, V, *RunErr) {
 			if c == ctlBreak {
 				break
 			}
-			if c == ctlReturn {
+			if c == ctlReturn || c == ctlTail {
 				return c, v, nil
 			}
 			if s.Post != nil {
@@ -362,7 +362,7 @@ func (in *Interp) stmt(s gen.Stmt, env *Env) (ctl, V, *RunErr) {
 			if c == ctlBreak {
 				break
 			}
-			if c == ctlReturn {
+			if c == ctlReturn || c == ctlTail {
 				return c, v, nil
 			}
 		}
